@@ -176,7 +176,10 @@ pub fn gen_random_bytes(seed: u64, index: u64) -> Vec<u8> {
 
 fn rand_name(r: &mut Rng) -> Vec<u8> {
     let simple: [&[u8]; 6] = [b"f", b"dir/f.c", b"a/b/c/d.txt", b"file.with.dots", b"x", b"Makefile"];
-    match r.below(14) {
+    match r.below(17) {
+        14 => b"vt\x0bin.txt".to_vec(),
+        15 => b"ff\x0cand\rcr".to_vec(),
+        16 => b"del\x7f\x01ctl".to_vec(),
         10 => b"\"x\".txt".to_vec(),
         11 => b"mid\"quote".to_vec(),
         12 => b"\"".to_vec(),
@@ -407,8 +410,18 @@ fn name_special(n: &Option<Vec<u8>>) -> bool {
 
 /// C12 oracle.  Returns (violations, tag) where tag is "unparseable" for inputs the parser rejects.
 pub fn check_c12(input: &[u8], seen: &mut Seen) -> (Vec<Violation>, String) {
+    // as read with -p0 and with -p1: stripped names begin with whatever follows the first component (a quote, a dot, ...)
+    let (mut out, tag) = check_c12_strip(input, 0, seen);
+    if out.is_empty() {
+        let (more, _) = check_c12_strip(input, 1, seen);
+        out.extend(more.into_iter().map(|v| v.with("strip", "1")));
+    }
+    (out, tag)
+}
+
+fn check_c12_strip(input: &[u8], strip: usize, seen: &mut Seen) -> (Vec<Violation>, String) {
     let mut out = Vec::new();
-    let p1 = match catch_unwind(AssertUnwindSafe(|| parse_patch(input, 0, false))) {
+    let p1 = match catch_unwind(AssertUnwindSafe(|| parse_patch(input, strip, false))) {
         Ok(Ok(p)) => p,
         _ => { take_panic(); return (out, "unparseable".to_string()); }
     };
